@@ -221,17 +221,17 @@ func c07r2(c *core.Ctx) {
 		}
 		core.Instrs(f, func(i ssa.Instruction) {
 			r, ok := i.(*ssa.Return)
-			if !ok || len(r.Results) != 1 {
+			if !ok || len(res(r)) != 1 {
 				return
 			}
-			if v, isK := core.ConstInt(r.Results[0]); isK {
+			if v, isK := core.ConstInt(res(r)[0]); isK {
 				if v == 1 {
 					good = false // unconditional "drained" would also be fine for safety, but then nothing is ever kept
 				}
 				return
 			}
 			n++
-			b, ok := r.Results[0].(*ssa.BinOp)
+			b, ok := res(r)[0].(*ssa.BinOp)
 			if !ok || b.Op != token.EQL || !isLenCall(b.X, ofParam) {
 				good = false
 				return
@@ -296,7 +296,7 @@ func c07r2(c *core.Ctx) {
 			return false, false
 		}
 		ret := pa.Returns()
-		if readErr != nil && len(ret.Results) == 2 && valIs(ret.Results[1], readErr) && !pathEstablishes(tail, func(cond ssa.Value) (bool, bool) { t, f := eofTrue(cond); return f, t }) {
+		if readErr != nil && len(res(ret)) == 2 && valIs(res(ret)[1], readErr) && !pathEstablishes(tail, func(cond ssa.Value) (bool, bool) { t, f := eofTrue(cond); return f, t }) {
 			eofReturned++
 		}
 	})
@@ -318,11 +318,11 @@ func c07r2(c *core.Ctx) {
 		why := ""
 		core.Instrs(dec, func(i ssa.Instruction) {
 			r, ok := i.(*ssa.Return)
-			if !ok || len(r.Results) != 2 || core.IsNilConst(r.Results[0]) {
+			if !ok || len(res(r)) != 2 || core.IsNilConst(res(r)[0]) {
 				return
 			}
 			n++
-			for _, s := range core.Sources(r.Results[0]) {
+			for _, s := range core.Sources(res(r)[0]) {
 				var t types.Type
 				switch x := s.(type) {
 				case *ssa.Alloc:
@@ -355,11 +355,11 @@ func c07r3(c *core.Ctx) {
 	core.EnumPaths(dec, 2, 200000, func(pa core.Path) {
 		total++
 		ret := pa.Returns()
-		if ret == nil || len(ret.Results) != 2 || !core.IsNilConst(ret.Results[0]) {
+		if ret == nil || len(res(ret)) != 2 || !core.IsNilConst(res(ret)[0]) {
 			return
 		}
 		// error provenance: a stream read
-		streamErr := core.AnySource(ret.Results[1], func(s ssa.Value) bool {
+		streamErr := core.AnySource(res(ret)[1], func(s ssa.Value) bool {
 			if cc, ok := s.(*ssa.Call); ok {
 				_, _, isRead := isStreamRead(cc)
 				return isRead || (cc.Call.IsInvoke() && cc.Call.Method.Name() == "Read")
